@@ -76,6 +76,42 @@ CLAIMED = {
              "0..6 draws before the wrap against a reference controller that rejects repeated counts.",
         design="4/C17", technique="inductive step over the real generator body (AST->z3) + symbolic execution of driver scenarios across the wrap (CrossHair/z3)",
         note="Generator shape (single yield in while True) is checked on the AST; a call constructing >= 65534 packets between two sends is outside the claim."),
+    "C05": dict(
+        text="Bounded symbolic scenario checking: the real get_tag_list (and the upload inside open()) runs against the reference controller; symbol metadata (instance id, dimensions, "
+             "external access, base bit), template member offsets / bit numbers / array length / structure size, the pagination points of the symbol list and the fragment size of "
+             "template reads are symbolic; the resulting tag database is compared with an expectation computed independently from the controller's symbol table.",
+        design="4/C05, 8", technique="symbolic execution of the real upload code against a reference target (CrossHair/z3)",
+        note="Project shapes (symbol kinds, template nesting, firmware generations) are an enumerated outer bound; one metadata field group symbolic per obligation."),
+    "C10": dict(
+        text="Bounded model checking of call histories: 1-2 (thorough 3) operations with symbolic operation codes, a symbolic single fault position (k-th socket I/O raises / peer vanishes), "
+             "symbolic target policy (4), final close and reopen, on the real driver against the reference controller; plus one-step obligations from the constructed connected state.",
+        design="4/C10, 8", technique="symbolic execution of bounded call histories with symbolic fault position and policy (CrossHair/z3)",
+        note="Single fault per history; sessions end with their TCP connection in the model; when no fault occurred the client must have released session/connection itself."),
+    "C11": dict(
+        text="Bounded symbolic checking: build_request of every packet class with symbolic message bytes (lengths 0..64), session handle, sequence count and connection id parsed by a strict "
+             "independent parser; a whole open-use-close session with a symbolic target-chosen session handle; the same parser runs inside every driver scenario of the other properties.",
+        design="4/C11", technique="symbolic execution of the real frame builders against a strict reference parser (CrossHair/z3)",
+        note="Oracle vlib/ref/eip.py; discover()'s UDP handling is outside (only its request frame is checked)."),
+    "C13": dict(
+        text="Bounded symbolic checking of reply classification: per request kind the reply-service byte (0..255), general status (0..255), 0-2 extended status words, encapsulation status "
+             "symbolic; multi-service status vectors; every truncation point and one symbolic byte at every CIP-part position of valid replies at driver level.",
+        design="4/C13", technique="symbolic execution of the real response parsers and driver calls on symbolic reply bytes (CrossHair/z3)",
+        note="Status 6 outside the required set {0x52,0x53,0x55} is accepted either way within the liberal set; one corruption at a time."),
+    "C14": dict(
+        text="Bounded symbolic scenario checking: generic_message in connected / UCMM / Unconnected-Send mode with symbolic service, class/instance/attribute (32 bit, ints and bytes), request "
+             "data (0..5 bytes), reply status and data; the reference controller's router log must show the request verbatim; route forms; helpers incl. a 64-bit symbolic clock value.",
+        design="4/C14", technique="symbolic execution of the real driver against a reference target's router log (CrossHair/z3)",
+        note="Known finding C14-ucmm-default-route is witnessed, not suppressed elsewhere; datetime rendering stubbed."),
+    "C16": dict(
+        text="Bounded symbolic checking: identity objects built from symbolic fields (every vendor id of the table via a symbolic index, ids above the table symbolic, product type/code, revision, "
+             "status, 32-bit serial, 0-4 name characters, IP octets, state) through the real decoders, ListIdentity packet and the three driver entry points; truncated replies.",
+        design="4/C16", technique="symbolic execution of the real identity decoders and driver entry points (CrossHair/z3)",
+        note="Vendor / product-type tables are data; one field group symbolic per obligation."),
+    "C18": dict(
+        text="Bounded symbolic scenario checking of the real SLCDriver against a reference data table (PCCC typed logical read / masked write): file numbers, elements, bits, B-file bit numbers, "
+             "counts, letter case, values and prior words symbolic; write-then-read, only-the-addressed-bit, exact PCCC request fields, rejection of out-of-range / unsupported addresses.",
+        design="4/C18", technique="symbolic execution of the real SLC driver against a reference data table (CrossHair/z3)",
+        note="Address numbers are enumerated by the engine over boundary ranges in the quick tier (all values in the thorough tier)."),
 }
 NA_REASON = "check not landed yet in this revision of /verif (work in progress; see DESIGN.md section 4 for the planned obligations)"
 
